@@ -120,8 +120,8 @@ NOISE = {
 }
 
 
-def cases_for(payloads, depth, family, tier_paths=None, noise=()):
-    """the complete product contexts x payloads (x the given noise prefixes, as additional cases)"""
+def cases_for(payloads, depth, family, tier_paths=None, noise=(), noise_only=False):
+    """the complete product contexts x payloads (x the given noise prefixes, as additional cases; noise_only: without the plain ones)"""
     paths = tier_paths or context_paths(depth)
     n = 0
     for p in payloads:
@@ -130,12 +130,13 @@ def cases_for(payloads, depth, family, tier_paths=None, noise=()):
             use_paths = [[BY_NAME["top"]]]
         for path in use_paths:
             src, line = compose(path, p)
-            n += 1
-            yield {"id": "%s-%d" % (family, n), "family": "%s.%s" % (family, p["kind"]), "src": src, "expect": p["expect"],
-                   "fault_line": line, "tags": list(p["tags"]) + ["ctx:" + path_name(path), "expect:" + p["expect"]]}
+            if not noise_only:
+                n += 1
+                yield {"id": "%s-%d" % (family, n), "family": "%s.%s" % (family, p["kind"]), "src": src, "expect": p["expect"],
+                       "fault_line": line, "tags": list(p["tags"]) + ["ctx:" + path_name(path), "expect:" + p["expect"]]}
             for nz in noise:
                 lines = NOISE[nz]
                 n += 1
-                yield {"id": "%s-%d" % (family, n), "family": "%s.%s" % (family, p["kind"]), "src": "\n".join(lines) + "\n" + src, "expect": p["expect"],
+                yield {"id": "%s-%sz%d" % (family, "n" if noise_only else "", n), "family": "%s.%s" % (family, p["kind"]), "src": "\n".join(lines) + "\n" + src, "expect": p["expect"],
                        "fault_line": None if line is None else line + len(lines),
                        "tags": list(p["tags"]) + ["ctx:" + path_name(path), "expect:" + p["expect"], "noise:" + nz]}
